@@ -148,10 +148,14 @@ def main(ctx, replay=None):
                 tensors.append(("basis", {k: numpy.full(ntv, 1.0 if k == bk else 0.0) for k in keys21}))
             for _r in range(nrand):
                 tensors.append(("random", {k: rng.normal(size=ntv) * 10 ** rng.uniform(-2, 2) for k in keys21}))
-            for kind, comp in tensors:
+            s2 = None
+            for tn, (kind, comp) in enumerate(tensors):
                 C = full_tensor(comp)
                 Crot = numpy.einsum("ia,ja,kb,lb,nijkl->nab", T, T, T, T, C)
-                s2 = S(e, K)
+                # the inputs are handed over by assignment: a solver object that is given a second tensor must answer for that one
+                # (every third tensor goes to a fresh object, the others re-use the previous one)
+                if s2 is None or tn % 3 == 0:
+                    s2 = S(e, K)
                 s2.modulus = {k: comp[canon(*k.standard)] for k in s2.get_modulus_keys()}
                 s2.modulus_rotated = {k: Crot[:, k.voigt[0] - 1, k.voigt[1] - 1] for k in s2.get_modulus_keys_rotated()}
                 try:
